@@ -33,6 +33,8 @@ pub struct Cont {
 pub type VarElem = List<u8, typenum::U8>;
 /// an element that is itself a multi-leaf milhouse list: hashing it forks with rayon
 pub type NestElem = List<u64, typenum::U1024>;
+/// an element that is a list of variable-size items (nested offset tables)
+pub type Nest2Elem = List<VarElem, typenum::U4>;
 
 pub trait Kind:
     Value + Send + Sync + Default + Serialize + DeserializeOwned + std::fmt::Debug + 'static
@@ -238,6 +240,8 @@ fn iter_str<'a, T: Kind, I: ExactSizeIterator<Item = &'a T>>(mut it: I) -> Strin
             }
         }
     }
+    // the size must stay answerable (and 0) after the iterator is exhausted
+    write!(s, " post={}", it.len()).unwrap();
     s
 }
 
@@ -417,8 +421,14 @@ impl<'s, T: Kind, N: Unsigned + Send + Sync, U: UpdateMap<T> + PartialEq + Send 
             "bulk" => {
                 let mut m = U::default();
                 for kv in &w[2..] {
-                    let (k, v) = kv.split_once(':')?;
-                    m.insert(k.parse().ok()?, val::<T>(v)?);
+                    if let Some((k, v)) = kv.split_once('~') {
+                        // filled through the public `get_mut_with` instead of `insert`
+                        let v = val::<T>(v)?;
+                        m.get_mut_with(k.parse().ok()?, |_| Some(v));
+                    } else {
+                        let (k, v) = kv.split_once(':')?;
+                        m.insert(k.parse().ok()?, val::<T>(v)?);
+                    }
                 }
                 match self.colls.get_mut(&n(1)?)? {
                     Handle::L(l) => res_unit(l.bulk_update(m)),
@@ -687,6 +697,17 @@ impl<'s, T: Kind, N: Unsigned + Send + Sync, U: UpdateMap<T> + PartialEq + Send 
             "ser" => {
                 let c = self.coll(n(1)?)?;
                 let value = both!(c, x => serde_json::to_value(x));
+                // the text writer uses the length announced to `serialize_seq`; its output must
+                // parse back to the same sequence
+                let text = both!(c, x => serde_json::to_string(x));
+                let reparsed = text
+                    .ok()
+                    .and_then(|t| serde_json::from_str::<serde_json::Value>(&t).ok());
+                if let Ok(v) = &value {
+                    if reparsed.as_ref() != Some(v) {
+                        return Some("err serde-text-form-differs".to_string());
+                    }
+                }
                 match value {
                     Ok(serde_json::Value::Array(items)) => {
                         let mut s = "ok".to_string();
@@ -967,6 +988,7 @@ fn make_runner(kind: &str, n: &str, m: &str) -> Option<Box<dyn Runner>> {
         "cont" => small_sizes!(Cont, n, m),
         "var" => small_sizes!(VarElem, n, m),
         "nest" => sizes!(NestElem, n, m, ["4" => U4, "8" => U8, "9" => U9, "33" => U33, "1024" => U1024]),
+        "nest2" => sizes!(Nest2Elem, n, m, ["3" => U3, "4" => U4, "5" => U5, "8" => U8, "9" => U9, "17" => U17]),
         _ => None,
     };
     if small.is_some() {
